@@ -172,6 +172,8 @@ def run_case(kind, params, ctx):
         muts.append(("remove_3_words", base[:-3]))
         muts.append(("swap_words", [base[1], base[0]] + base[2:]))
         muts.append(("empty", []))
+        for nshort in (1, 2, 3, 3, 6, 6, 9, 9, 10, 11, 13, 25, 27, 30):
+            muts.append((f"wrong_count_{'multiple_of_3' if nshort % 3 == 0 else 'other'}", [rng.choice(W) for _ in range(nshort)]))
         muts.append(("repeat", base + base))
         for cls, seq in muts:
             mn = " ".join(seq)
